@@ -1,5 +1,6 @@
 (* Model of server/handler.py: StaticFileHandler.handle and FileUploadHandler.handle_upload /
-   _handle_delete over the filesystem model (after the fix: commits). *)
+   _handle_delete over the filesystem model (after the fix: commits).  handle, try_indices and handle_upload are
+   the definitions the translated source was proved equal to without hypotheses (Equiv/EquivStatic.v). *)
 From Coq Require Import List NArith ZArith Bool.
 From NV Require Import Prelude.Str Prelude.Res Prelude.Utf8 Model.Fs.
 Import ListNotations.
@@ -43,16 +44,29 @@ Definition serve_file (c : scfg) (f : fs) (p : path) : sout :=
   | _ => OStatus 51 (lit "Not found")
   end.
 
+(* `d / name` as pathlib joins it (no filesystem access): an absolute right operand replaces d, slashes separate
+   components.  The result is not resolved yet: (resolved base, components still to be walked). *)
+Definition pjoin (p : path) (s : str) : path * list str :=
+  if prefixb [ch_slash] s then ([], comps s) else (p, comps s).
+
 Fixpoint try_indices (c : scfg) (f : fs) (d : path) (idx : list str) : option sout :=
   match idx with
   | [] => None
   | i :: rest =>
-      match resolve_fully f d [i] with
+      let u := pjoin d i in
+      (* an embedded NUL makes resolve() raise ValueError: _resolve_fully answers None, the name is skipped *)
+      if existsb (mem 0) (snd u) then try_indices c f d rest else
+      match resolve_fully f (fst u) (snd u) with
       | FNone => try_indices c f d rest
       | FFuel => Some OOom
       | FPath ip =>
-          if path_prefixb (s_root c) ip && match lstat f ip with Some (File _) => true | _ => false end
-          then Some (serve_file c f ip)
+          if path_prefixb (s_root c) ip then
+            (* is_file() does not swallow ENAMETOOLONG: the exception leaves handle() *)
+            if name_too_long ip then Some (ORaise (lit "oserror")) else
+            match lstat f ip with
+            | Some (File _) => Some (serve_file c f ip)
+            | _ => try_indices c f d rest
+            end
           else try_indices c f d rest
       end
   end.
@@ -141,7 +155,12 @@ Definition resolve_target (c : ucfg) (f : fs) (p : str) : res (option path) :=  
       end
   end.
 
-Definition handle_upload (c : ucfg) (f : fs) (r : ureq) (flt : fault) : uout * fs :=
+(* the temporary file of an upload to t: ".<name>.<tok>.tmp" beside t (tok: the value of secrets.token_hex(8)) *)
+Definition path_name (p : path) : str := match rev p with x :: _ => x | [] => [] end.
+Definition tmp_name (name tok : str) : str := lit "." ++ name ++ lit "." ++ tok ++ lit ".tmp".
+Definition tmp_of (t : path) (tok : str) : path := removelast t ++ [tmp_name (path_name t) tok].
+
+Definition handle_upload (c : ucfg) (f : fs) (r : ureq) (flt : fault) (tok : str) : uout * fs :=
   if negb (token_ok c (q_token r)) then (UResp 60 (lit "Valid authentication token required"), f)
   else if u_max c <? q_size r then (UResp 50 (lit "Upload exceeds maximum size"), f)
   else if match u_types c with Some (t :: ts) => negb (existsb (eqb (q_mime r)) (t :: ts)) | _ => false end
@@ -167,19 +186,28 @@ Definition handle_upload (c : ucfg) (f : fs) (r : ureq) (flt : fault) : uout * f
     | Err k _ => (URaise k, f)
     | Ok None => (UResp 59 (lit "Invalid path"), f)
     | Ok (Some t) =>
-        if name_too_long t then (UResp 40 (lit "Upload failed"), f) else
+        (* only the PARENT's components stop mkdir() *)
+        if name_too_long (removelast t) then (UResp 40 (lit "Upload failed"), f) else
         match mkdirs (S (length t)) f [] (removelast t) with
         | None => (UResp 40 (lit "Upload failed"), f)
         | Some f1 =>
-            match flt with
-            | Some _ => (UResp 40 (lit "Upload failed"), f1)        (* temp file written partly, then removed *)
-            | None =>
-                match lstat f1 t with
-                | Some Dir => (UResp 40 (lit "Upload failed"), f1)  (* os.replace onto a directory *)
-                | _ => match t with
-                       | [] => (UResp 40 (lit "Upload failed"), f1)
-                       | _ => (UResp 20 (lit "text/gemini"), set_node f1 t (File (q_content r)))
-                       end
+            match t with
+            | [] => (UResp 40 (lit "Upload failed"), f1)
+            | _ =>
+                (* the temporary name must be usable (this covers an over-long last component of t: the directories
+                   exist by now) and free (open(.., "xb")); nothing but the directories is left behind *)
+                if name_too_long (tmp_of t tok) then (UResp 40 (lit "Upload failed"), f1) else
+                match lstat f1 (tmp_of t tok) with
+                | Some _ => (UResp 40 (lit "Upload failed"), f1)
+                | None =>
+                    match flt with
+                    | Some _ => (UResp 40 (lit "Upload failed"), f1)  (* temp file written partly, then removed *)
+                    | None =>
+                        match lstat f1 t with
+                        | Some Dir => (UResp 40 (lit "Upload failed"), f1)  (* os.replace onto a directory *)
+                        | _ => (UResp 20 (lit "text/gemini"), set_node f1 t (File (q_content r)))
+                        end
+                    end
                 end
             end
         end
